@@ -301,7 +301,7 @@ void run_sweep(Judge& j, int nworkloads, bool pairs, const std::vector<int>& nex
 }
 
 // ------------------------------------------------------------------------------------------------ idle-point sweep (terminal actions)
-void run_idle_sweep(Judge& j, uint64_t nbase, int max_idle, const std::vector<int>& term_kinds) {
+void run_idle_sweep(Judge& j, uint64_t nbase, int max_idle, const std::vector<int>& term_kinds, int max_handler = 0, const std::vector<int>& handler_kinds = {}) {
     const FamilyCtx& ctx = j.ctx;
     uint64_t idx = 0;
     Knobs k; k.pubs_max = 6; k.suffix = 12 * SEC; k.span = 1 * SEC; k.faults_max = 1; k.bad_attempts_max = 1; k.big_payload_pct = 0;
@@ -311,43 +311,108 @@ void run_idle_sweep(Judge& j, uint64_t nbase, int max_idle, const std::vector<in
         base.seed = ctx.seed; base.index = bi;
         if (rng.chance(1, 4)) base.net.shutdown_hangs = true;
         if (rng.chance(1, 5)) { base.attempts.clear(); AttemptPlan a; a.tcp = AttemptPlan::tcp_hang; base.attempts.push_back(a); base.default_attempt = a; }
-        // number of idle points of the undisturbed run
-        uint64_t nidle;
-        { auto ex = execute(base); nidle = ex->run.out.idle_points; }
+        // number of idle points / handler boundaries of the undisturbed run
+        uint64_t nidle, nhand;
+        { auto ex = execute(base); nidle = ex->run.out.idle_points; nhand = ex->run.out.handler_boundaries; }
         int limit = (int)std::min<uint64_t>(nidle, max_idle);
-        for (int ip = 1; ip <= limit; ++ip)
-            for (int tk : term_kinds) {
-                if (int(idx++ % ctx.nshards) != ctx.shard) continue;
-                Scenario sc = base; sc.family = "idle-sweep"; sc.index = bi * 1000000 + ip * 10 + tk;
-                Action a; a.idle_index = ip;
-                switch (tk) {
-                    case 0: a.kind = Action::cancel; break;
-                    case 1: a.kind = Action::disconnect; a.rc = 0; break;
-                    case 2: a.kind = Action::destroy; break;
-                    case 3: {   // cancel, run again, cancel again
-                        a.kind = Action::cancel;
-                        Action r2; r2.kind = Action::run; r2.idle_index = ip + 2; sc.script.push_back(r2);
-                        Action p2; p2.kind = Action::publish; p2.qos = 1; p2.topic = "again"; p2.payload = "x"; p2.idle_index = ip + 3; sc.script.push_back(p2);
-                        Action c2; c2.kind = Action::cancel; c2.idle_index = ip + 9; sc.script.push_back(c2);
-                        break;
+        int hlimit = (int)std::min<uint64_t>(nhand, max_handler);
+        // placements: (false, idle point) and (true, handler boundary)
+        for (int pass = 0; pass < 2; ++pass) {
+            int lim = pass == 0 ? limit : hlimit;
+            const std::vector<int>& kinds = pass == 0 ? term_kinds : handler_kinds;
+            for (int ip = 1; ip <= lim; ++ip)
+                for (int tk : kinds) {
+                    if (int(idx++ % ctx.nshards) != ctx.shard) continue;
+                    Scenario sc = base; sc.family = pass == 0 ? "idle-sweep" : "handler-sweep"; sc.index = bi * 1000000 + ip * 10 + tk + (pass ? 500000 : 0);
+                    Action a;
+                    if (pass == 0) a.idle_index = ip; else a.handler_index = ip;
+                    auto later = [&](Action x, int offset) { if (pass == 0) x.idle_index = ip + offset; else { x.handler_index = -1; x.idle_index = -1; x.at = -1; } return x; };
+                    std::vector<Action> extra;   // pushed after `a`
+                    switch (tk) {
+                        case 0: a.kind = Action::cancel; break;
+                        case 1: a.kind = Action::disconnect; a.rc = 0; break;
+                        case 2: a.kind = Action::destroy; break;
+                        case 3: {   // cancel, run again, cancel again (idle placement only)
+                            a.kind = Action::cancel;
+                            Action r2; r2.kind = Action::run; r2.idle_index = ip + 2; extra.push_back(r2);
+                            Action p2; p2.kind = Action::publish; p2.qos = 1; p2.topic = "again"; p2.payload = "x"; p2.idle_index = ip + 3; extra.push_back(p2);
+                            Action c2; c2.kind = Action::cancel; c2.idle_index = ip + 9; extra.push_back(c2);
+                            break;
+                        }
+                        case 4: {   // per-operation signal on the first request of the script
+                            a.kind = Action::signal; a.target = 1; a.sig = rng.pick(std::vector<SigType>{SigType::total, SigType::partial, SigType::terminal});
+                            if (sc.script.size() > 1) sc.script[1].with_slot = true;
+                            break;
+                        }
+                        case 5: a.kind = Action::disconnect; a.rc = 4; { ref::Prop u; u.id = 0x1F; u.s1 = "bye"; a.props.push_back(u); } break;
+                        case 6: {   // a request and the terminal action in the same turn: the request's write completion is already queued
+                            a.kind = Action::publish; a.qos = (int)rng.range(1, 2); a.topic = "turn"; a.payload = "x";
+                            Action c; c.kind = rng.chance(1, 3) ? Action::disconnect : Action::cancel; c.chained = true; extra.push_back(c);
+                            break;
+                        }
+                        case 7: {   // subscribe and the terminal action in the same turn, from inside a handler
+                            a.kind = Action::subscribe; a.subs = {{"turn/+", 1}}; a.in_handler = true;
+                            Action c; c.kind = Action::cancel; c.chained = true; extra.push_back(c);
+                            break;
+                        }
+                        case 8: {   // terminal action, then requests on the closed client (some from inside a handler), then a new run
+                            a.kind = Action::cancel;
+                            Action p; p.kind = Action::publish; p.qos = 1; p.topic = "late"; p.payload = "x"; p.chained = true; extra.push_back(p);
+                            Action p2; p2.kind = Action::publish; p2.qos = 0; p2.topic = "late0"; p2.payload = "x"; p2.idle_index = ip + 1; p2.in_handler = true; extra.push_back(p2);
+                            Action s2; s2.kind = Action::subscribe; s2.subs = {{"late/+", 1}}; s2.idle_index = ip + 2; s2.in_handler = rng.chance(1, 2); extra.push_back(s2);
+                            Action r2; r2.kind = Action::run; r2.idle_index = ip + 4; extra.push_back(r2);
+                            break;
+                        }
                     }
-                    case 4: {   // per-operation signal on the first request of the script
-                        a.kind = Action::signal; a.target = 1; a.sig = rng.pick(std::vector<SigType>{SigType::total, SigType::partial, SigType::terminal});
-                        if (sc.script.size() > 1) sc.script[1].with_slot = true;
-                        break;
-                    }
-                    case 5: a.kind = Action::disconnect; a.rc = 4; { ref::Prop u; u.id = 0x1F; u.s1 = "bye"; a.props.push_back(u); } break;
+                    sc.script.push_back(a);
+                    for (auto& x : extra) sc.script.push_back(x);
+                    (void)later;
+                    vu::set_case(sc.family + " base=" + std::to_string(bi) + " at=" + std::to_string(ip) + " terminal=" + std::to_string(tk));
+                    auto ex = execute(sc);
+                    j.judge(sc, *ex);
+                    j.res.count("terminal_placements");
+                    j.res.count(pass == 0 ? "idle_point_placements" : "handler_boundary_placements");
+                    j.res.count("terminal_kind_" + std::to_string(tk));
                 }
-                sc.script.push_back(a);
-                vu::set_case(sc.family + " base=" + std::to_string(bi) + " idle=" + std::to_string(ip) + " terminal=" + std::to_string(tk));
-                auto ex = execute(sc);
-                j.judge(sc, *ex);
-                j.res.count("terminal_placements");
-                j.res.count("terminal_kind_" + std::to_string(tk));
-            }
+        }
     }
 }
 
+// requests on a client that is not running (never run / cancelled / disconnected), issued from outside and from inside handlers;
+// they belong to the next async_run and must complete exactly once, never inside the initiating call
+void run_closed_client(Judge& j, uint64_t n) {
+    const FamilyCtx& ctx = j.ctx;
+    for (uint64_t i = 0; i < n; ++i) {
+        if (int(i % ctx.nshards) != ctx.shard) continue;
+        vu::Rng rng(ctx.seed * 8191 + i * 131071 + 3);
+        Scenario sc; sc.family = "closed-client"; sc.seed = ctx.seed; sc.index = i;
+        int state = (int)rng.below(3);     // 0 never run, 1 after cancel(), 2 after a completed async_disconnect
+        vt t = 0;
+        if (state >= 1) {
+            Action r; r.kind = Action::run; r.at = 0; sc.script.push_back(r);
+            Action p; p.kind = Action::publish; p.at = 50 * MS; p.qos = 1; p.topic = "pre"; p.payload = "x"; sc.script.push_back(p);
+            Action c; c.kind = state == 1 ? Action::cancel : Action::disconnect; c.at = (vt)rng.range(10 * MS, 300 * MS); sc.script.push_back(c);
+            t = 6 * SEC;
+        }
+        int nops = (int)rng.range(1, 4);
+        for (int k = 0; k < nops; ++k) {
+            Action a; a.at = t + k * (rng.chance(1, 2) ? 0 : 1 * MS); a.in_handler = rng.chance(1, 2);
+            switch (rng.below(4)) {
+                case 0: a.kind = Action::publish; a.qos = 0; a.topic = "c0"; a.payload = "x"; break;
+                case 1: a.kind = Action::publish; a.qos = (int)rng.range(1, 2); a.topic = "c1"; a.payload = "x"; break;
+                case 2: a.kind = Action::subscribe; a.subs = {{"c/+", 1}}; break;
+                default: a.kind = Action::unsubscribe; a.subs = {{"c/+", 0}}; break;
+            }
+            sc.script.push_back(a);
+        }
+        Action r2; r2.kind = Action::run; r2.at = t + 1 * SEC; sc.script.push_back(r2);
+        sc.end = t + 20 * SEC;
+        vu::set_case(sc.family + " index=" + std::to_string(i));
+        auto ex = execute(sc);
+        j.judge(sc, *ex);
+        j.res.count("closed_client_scenarios");
+    }
+}
 
 // ------------------------------------------------------------------------------------------------ C01: spurious acknowledgements at quiescent points
 // Soundness rule: a forged ack is indistinguishable from a real one once the PUBLISH is in flight, so forged acks are sent only
@@ -885,7 +950,8 @@ int run_families(const FamilyCtx& ctx, vu::Result& res) {
         Knobs k = knobs_for("c04-mix");
         run_mix(j, k, "c04-mix", T ? 150000 : 3000);
     } else if (P == "C05") {
-        run_idle_sweep(j, T ? 40 : 4, T ? 200 : 90, {0, 1, 2, 3, 4, 5});
+        run_idle_sweep(j, T ? 40 : 4, T ? 200 : 90, {0, 1, 2, 3, 4, 5, 6, 7, 8}, T ? 400 : 150, {0, 1, 2, 6});
+        run_closed_client(j, T ? 20000 : 600);
         Knobs k = knobs_for("c05-mix");
         run_mix(j, k, "c05-mix", T ? 50000 : 1000);
     } else if (P == "C06") {
@@ -899,7 +965,7 @@ int run_families(const FamilyCtx& ctx, vu::Result& res) {
         run_mix(j, k, "c08-mix", T ? 100000 : 2000);
         run_exhaustion(j);
     } else if (P == "C09") {
-        run_idle_sweep(j, T ? 60 : 8, T ? 200 : 90, {1, 5});
+        run_idle_sweep(j, T ? 60 : 8, T ? 200 : 90, {1, 5}, T ? 400 : 120, {1, 5});
     } else if (P == "C10") {
         run_c10(j, T ? 150000 : 3000);
     } else if (P == "C11") {
@@ -921,6 +987,7 @@ int run_families(const FamilyCtx& ctx, vu::Result& res) {
         Knobs k = knobs_for("c14-mix");
         run_mix(j, k, "c14-mix", T ? 150000 : 3000);
         run_mix(j, knobs_for("c14-hostile"), "c14-hostile", T ? 60000 : 1500);
+        run_spurious(j, T ? 20000 : 600);
     } else {
         res.harness_error = "no simulator family for " + P;
         return 2;
